@@ -106,6 +106,45 @@ theorem kraus_choi_psd {m : Type} [Fintype m] (K : m → Matrix n n ℂ) :
   rw [choi_conj]; exact posSemidef_vecMulVec_self_star _
 end generic
 
+/-! ## further generic families -/
+section families
+variable {n : Type} [Fintype n] [DecidableEq n]
+
+/-- C17 `state_ensemble` / depolarised objects: a convex mixture of physical states is a physical state. -/
+theorem mixture_physical {m : Type} [Fintype m] (p : m → ℝ) (ρ : m → Matrix n n ℂ) (hp : ∀ x, 0 ≤ p x)
+    (hs : ∑ x, p x = 1) (hρ : ∀ x, (ρ x).PosSemidef ∧ (ρ x).trace = 1) :
+    (∑ x, ((p x : ℝ) : ℂ) • ρ x).PosSemidef ∧ (∑ x, ((p x : ℝ) : ℂ) • ρ x).trace = 1 := by
+  constructor
+  · apply Matrix.posSemidef_sum
+    intro x _
+    exact (hρ x).1.smul (by exact_mod_cast hp x)
+  · rw [Matrix.trace_sum]
+    simp only [Matrix.trace_smul, (hρ _).2, smul_eq_mul, mul_one]
+    exact_mod_cast hs
+
+/-- C17 type-1 (projective) measurement processes: the Kraus operators `|u_x⟩⟨u_x|` built from the columns of a unitary
+satisfy `Σ_x K_xᴴ K_x = 1`, so `kraus_tp` / `kraus_choi_psd` apply. -/
+theorem projective_kraus_complete (U : Matrix n n ℂ) (hU : U * Uᴴ = 1) (hU' : Uᴴ * U = 1) :
+    ∑ x, (vecMulVec (fun i => U i x) (star fun i => U i x))ᴴ * vecMulVec (fun i => U i x) (star fun i => U i x) = 1 := by
+  have hn : ∀ x, (star fun i => U i x) ⬝ᵥ (fun i => U i x) = 1 := by
+    intro x
+    have := congrFun (congrFun hU' x) x
+    simpa [Matrix.mul_apply, Matrix.conjTranspose_apply, dotProduct] using this
+  have hP : ∀ x, (vecMulVec (fun i => U i x) (star fun i => U i x))ᴴ * vecMulVec (fun i => U i x) (star fun i => U i x)
+      = vecMulVec (fun i => U i x) (star fun i => U i x) := by
+    intro x
+    ext i j
+    simp only [Matrix.mul_apply, Matrix.conjTranspose_apply, vecMulVec_apply, Pi.star_apply, star_mul, star_star]
+    have h1 := hn x
+    simp only [dotProduct, Pi.star_apply] at h1
+    calc ∑ k, U i x * star (U k x) * (U k x * star (U j x))
+        = U i x * (∑ k, star (U k x) * U k x) * star (U j x) := by
+          rw [Finset.mul_sum, Finset.sum_mul]; apply Finset.sum_congr rfl; intro k _; ring
+      _ = U i x * star (U j x) := by rw [h1, mul_one]
+  simp only [hP]
+  exact (povm_of_onb_physical U hU).2
+end families
+
 /-! ## Hamiltonian ↦ unitary -/
 section hamiltonian
 open NormedSpace
@@ -119,6 +158,16 @@ theorem unitary_of_hamiltonian {n : Type} [Fintype n] [DecidableEq n] (H : Matri
   apply exp_mem_unitary_of_mem_skewAdjoint
   rw [skewAdjoint.mem_iff, Matrix.star_eq_conjTranspose, Matrix.conjTranspose_smul, hH]
   simp
+
+/-- C17 Hamiltonian-defined gates (every 3-qubit and 2-qutrit catalogue gate, and the gate of every catalogue
+Lindbladian): for Hermitian `H` the map `ρ ↦ UρUᴴ` with `U = exp(−iH)` is trace preserving and its Choi matrix is PSD. -/
+theorem gate_of_hamiltonian_physical {n : Type} [Fintype n] [DecidableEq n] (H : Matrix n n ℂ) (hH : Hᴴ = H) :
+    (∀ ρ : Matrix n n ℂ, (exp ((-Complex.I) • H) * ρ * (exp ((-Complex.I) • H))ᴴ).trace = ρ.trace) ∧
+      (choi fun ρ => exp ((-Complex.I) • H) * ρ * (exp ((-Complex.I) • H))ᴴ).PosSemidef := by
+  have hU := unitary_of_hamiltonian H hH
+  refine ⟨fun ρ => gate_of_unitary_tp _ ρ ?_, gate_of_unitary_choi_psd _⟩
+  rw [← Matrix.star_eq_conjTranspose]
+  exact Unitary.star_mul_self_of_mem hU
 end hamiltonian
 
 /-! ## the executable `hsOfUnitary` -/
@@ -178,12 +227,57 @@ theorem listed_name_accepted (name : String) (h : name ∈ get_state_names) :
     generate_state_pure_state_vector_from_name_rejects name = false := by
   simp [generate_state_pure_state_vector_from_name_rejects, (valid_iff_listed name).mpr h]
 
+/-- C17 catalogue structure (generated `get_gate_names_2qutrit_two_base_matrices`): a name is listed iff it is
+`n1 ++ "_" ++ n2` for two DIFFERENT listed single-base names — the parameters the generator reads back by `split("_")`. -/
+theorem two_base_name_structure (name : String) :
+    name ∈ get_gate_names_2qutrit_two_base_matrices ↔
+      ∃ n1 ∈ get_gate_names_2qutrit_single_base_matrix, ∃ n2 ∈ get_gate_names_2qutrit_single_base_matrix,
+        n1 ≠ n2 ∧ name = n1 ++ "_" ++ n2 := by
+  simp only [get_gate_names_2qutrit_two_base_matrices, List.nil_append, List.mem_flatMap, List.mem_map,
+    List.mem_filter, bne_iff_ne, ne_eq]
+  constructor
+  · rintro ⟨n1, h1, n2, ⟨h2, hne⟩, rfl⟩
+    exact ⟨n1, h1, n2, h2, hne, rfl⟩
+  · rintro ⟨n1, h1, n2, h2, hne, rfl⟩
+    exact ⟨n1, h1, n2, ⟨h2, hne⟩, rfl⟩
+
+/-- C17 catalogue structure (generated `get_gate_names_2qutrit_single_base_matrix`): a name is listed iff it is a
+base-matrix name other than `"ii"` (first occurrence removed) followed by an angle. -/
+theorem single_base_name_structure (name : String) :
+    name ∈ get_gate_names_2qutrit_single_base_matrix ↔
+      ∃ b ∈ get_base_matrix_names_2qutrit.erase "ii", ∃ a ∈ get_angles_2qutrit, name = b ++ a := by
+  simp only [get_gate_names_2qutrit_single_base_matrix, List.nil_append, prodTuples_two_join, List.mem_flatMap,
+    List.mem_map]
+  constructor
+  · rintro ⟨b, hb, a, ha, rfl⟩; exact ⟨b, hb, a, ha, rfl⟩
+  · rintro ⟨b, hb, a, ha, rfl⟩; exact ⟨b, hb, a, ha, rfl⟩
+
+/-- C17 catalogue structure (generated `get_gate_names`): `identity` followed by the five per-system lists. -/
+theorem gate_names_listing :
+    get_gate_names = "identity" :: (get_gate_names_1qubit ++ get_gate_names_2qubit ++ get_gate_names_3qubit
+      ++ get_gate_names_1qutrit ++ get_gate_names_2qutrit) := by
+  simp [get_gate_names]
+
 /-- the hypotheses are inhabited on both sides; near-miss names assembled from valid labels are rejected -/
+example : "i01x90" ∈ get_gate_names_2qutrit_single_base_matrix := by decide +kernel
+example : get_gate_names_1qubit.length = 15 ∧ get_gate_names_3qubit = ["toffoli", "fredkin"] := by decide +kernel
 example : is_valid_state_name "z0_x1_a" = true := by decide +kernel
 example : "z0_01x0" ∉ get_state_names := by decide +kernel
 example : generate_state_pure_state_vector_from_name_rejects "01z0_01z0_01z0" = true := by decide +kernel
 example : get_state_names.length = 749 := by decide +kernel
 end names
+
+/-- the hypotheses of the generic family theorems are satisfiable -/
+example := projective_kraus_complete (1 : Matrix (Fin 2) (Fin 2) ℂ) (by simp) (by simp)
+example := mixture_physical (n := Fin 2) (m := Fin 2) (fun _ => (1 / 2 : ℝ))
+  (fun _ => vecMulVec (fun i : Fin 2 => if i = 0 then (1 : ℂ) else 0) (star fun i : Fin 2 => if i = 0 then (1 : ℂ) else 0))
+  (fun _ => by norm_num) (by simp)
+  (fun _ => state_of_pure_vector_physical _ (by simp [dotProduct, Fin.sum_univ_two]))
+section
+open NormedSpace
+open scoped Matrix.Norms.L2Operator
+example := gate_of_hamiltonian_physical (0 : Matrix (Fin 2) (Fin 2) ℂ) (by simp)
+end
 
 /-- `hsOfUnitary_row0` instantiated (one-dimensional system, `U = 1`) -/
 example : (hsOfUnitary basis1 (Mat.one : Mat ℂ 1 1)).get ⟨0, by decide⟩ ⟨0, by decide⟩ = 1 := by
